@@ -106,7 +106,13 @@ namespace cnl::_impl {
                     continue;
                 }
 
-                if (!oob(output.significand)) {
+                // room to multiply by InRadix? (oob() asks about OutRadix, which is too cautious here
+                // and would drop a digit of a value that still fits)
+                auto const room{
+                        (output.significand < Significand{0})
+                                ? output.significand >= std::numeric_limits<Significand>::lowest() / InRadix
+                                : output.significand <= std::numeric_limits<Significand>::max() / InRadix};
+                if (room) {
                     output.significand *= InRadix;
                     in_exponent--;
                 } else {
